@@ -140,6 +140,20 @@ class UnitsAdapter:
             d = self.compare_op(it, obj, exp['r'], sunits)
             if d:
                 devs.append(d)
+            # the same operation on quantities of amount 1 (quantity op quantity): the same answer
+            if act in ('mul', 'div') and not d:
+                stypes = {t['name']: t for t in dst['types']}
+                us = [sunits.get(it['sym']), sunits.get(it['of'])]
+                if all(u is not None and tuple(stypes[u['typ']].get('q', (0, 0))) == (0, 0) for u in us):
+                    try:
+                        q1, q2 = self.Quantity(1, self.unit(it['sym'])), self.Quantity(1, self.unit(it['of']))
+                        qobj = q1 * q2 if act == 'mul' else q1 / q2
+                    except Exception as exc:
+                        qobj = exc
+                    d2 = self.compare_op(it, qobj, exp['r'], sunits)
+                    if d2:
+                        d2 = dict(d2, sig=d2['sig'] + ':quantities', what='(quantity operands) ' + d2['what'])
+                        devs.append(d2)
         devs.extend(self.compare_directory(dst, sunits, act, exp['kind']))
         return devs
 
